@@ -222,7 +222,7 @@ class ProgGen:
                 pool = ["i", "j", "k", "ii"]
                 cand = [x for x in pool if x not in used] or pool
                 if self.p("shadow") and used:
-                    cand = list(used & set(pool)) or cand
+                    cand = sorted(used & set(pool)) or cand
                 if self.p("shadow") and (ctx["idxargs"] or ctx["sizes"]) and rng.random() < 0.5:
                     # a loop variable that shares its NAME with a control argument (a distinct Sym)
                     cand = list(ctx["idxargs"]) + list(ctx["sizes"])
